@@ -38,10 +38,18 @@ type Peer struct {
 	VersionMsize  uint32
 	VersionStr    string
 	MaxFrame int // largest request frame seen
+	Inject          map[int][]byte // bad frame placed before the i-th reply of the batch (len = after the last)
+	InjectSameSeg   bool
+	InjectedAt      int // stream offset at which the bad frame starts (-1: not injected)
+	CloseAfterBatch bool
+	sentBytes       int
+	closed          bool
+	ReplyEnds       map[uint32]int // fid of the request -> stream offset at which its reply ends
+	BatchOnce       bool           // after the first batch answer at once
 }
 
 func NewPeer(end *vs.End, dotu bool) *Peer {
-	return &Peer{End: end, Dotu: dotu, Msize: 8192, out: map[uint16]bool{}, Kinds: map[int]string{}, AnswerVersion: true}
+	return &Peer{End: end, Dotu: dotu, Msize: 8192, out: map[uint16]bool{}, Kinds: map[int]string{}, AnswerVersion: true, InjectedAt: 1 << 30, ReplyEnds: map[uint32]int{}}
 }
 
 // payload functions: the reply is a function of the request
@@ -129,6 +137,9 @@ func (p *Peer) Serve() {
 			p.out[m.Tag] = true
 			p.pending = append(p.pending, m)
 			p.flushBatch()
+			if p.closed {
+				return
+			}
 		}
 		if err != nil {
 			return
@@ -148,7 +159,28 @@ func (p *Peer) flushBatch() {
 		}
 	}
 	var all []byte
-	for _, i := range order {
+	emit := func(b []byte, flushNow bool) {
+		if p.OneWrite && !flushNow {
+			all = append(all, b...)
+			return
+		}
+		if len(all) > 0 {
+			b = append(all, b...)
+			all = nil
+		}
+		p.End.Write(b)
+	}
+	for k, i := range order {
+		if bad, ok := p.Inject[k]; ok {
+			delete(p.Inject, k) // once
+			p.InjectedAt = p.sentBytes
+			p.sentBytes += len(bad)
+			if p.InjectSameSeg {
+				all = append(all, bad...)
+			} else {
+				emit(bad, true)
+			}
+		}
 		m := p.pending[i]
 		r := p.replyFor(p.arrived+i, m)
 		delete(p.out, m.Tag)
@@ -156,14 +188,25 @@ func (p *Peer) flushBatch() {
 			continue
 		}
 		b := wire.Encode(r, p.Dotu)
-		if p.OneWrite {
-			all = append(all, b...)
-		} else {
-			p.End.Write(b)
-		}
+		p.sentBytes += len(b)
+		p.ReplyEnds[m.Fid] = p.sentBytes
+		emit(b, false)
+	}
+	if bad, ok := p.Inject[len(order)]; ok {
+		delete(p.Inject, len(order))
+		p.InjectedAt = p.sentBytes
+		p.sentBytes += len(bad)
+		all = append(all, bad...)
 	}
 	if len(all) > 0 {
 		p.End.Write(all)
+	}
+	if p.CloseAfterBatch {
+		p.End.Close()
+		p.closed = true
+	}
+	if p.BatchOnce {
+		p.Batch = 0
 	}
 	p.arrived += len(p.pending)
 	p.pending = nil
